@@ -1,7 +1,7 @@
 (* C16: PMF integration solves the stated discrete problem; incremental divergence = batch.
    Statements only; proofs in IntegrateProofs.v (any numeric carrier), IntegrateRProofs.v (reals, 1-D) and
    LaplaceProofs.v (reals: Laplacian, solvability, conjugate gradient, Poisson statement). *)
-From Coq Require Import ZArith List Bool Reals Lia.
+From Coq Require Import ZArith List Bool Reals Lia Lra.
 From CV Require Import Base.Num Base.RNum C16.IntegrateModel C16.IntegrateProofs C16.IntegrateRProofs C16.LaplaceProofs C16.LoopsProofs.
 Import ListNotations.
 
@@ -251,7 +251,8 @@ Print Assumptions C16_divergence_sums_to_zero_3d.
      (1) the right-hand side is the divergence D of the final gradients and sums to zero (solvable problem);
      (2) if the solver made an iteration and reports err <= tol, then |D - Laplacian(surface)| <= tol |D| (l2);
      (3) if it reports err = 0 (exact solve), Laplacian(surface) = D at every grid point;
-     (4) if it stopped before itmax, it reports err <= tol.
+     (4) if it stopped before itmax, it reports err <= tol (or err = 0: the residual was exactly zero, e.g. a repeated call
+         on unchanged data - after "fix: PMF integration returned NaN when the initial guess already solved the system").
    In exact (real) arithmetic the recurred residual IS the true residual; that the floating-point recurrence
    stays close to it, and that the iteration converges within itmax, is checked numerically by the tie. *)
 Theorem C16_poisson_2d : forall (sc : smooth_cfg) (sm : bool) (sh : shape2 (T:=R)) (st0 : state2 (T:=R))
@@ -264,7 +265,7 @@ Theorem C16_poisson_2d : forall (sc : smooth_cfg) (sm : bool) (sh : shape2 (T:=R
   ((1 <= out_iter _ o)%Z -> (out_err _ o <= tol)%R ->
      (l2norm Rops _ (all_ix2 sh) (fun p => (D p - atimes2 Rops sh (out_x _ o) p)%R) <= tol * l2norm Rops _ (all_ix2 sh) D)%R) /\
   ((1 <= out_iter _ o)%Z -> out_err _ o = 0%R -> forall p, in_pmf2 sh p -> atimes2 Rops sh (out_x _ o) p = D p) /\
-  ((1 <= out_iter _ o < Z.of_nat itmax)%Z -> (out_err _ o <= tol)%R).
+  ((1 <= out_iter _ o < Z.of_nat itmax)%Z -> (out_err _ o <= tol)%R \/ out_err _ o = 0%R).
 Proof. exact poisson2_history. Qed.
 Print Assumptions C16_poisson_2d.
 
@@ -278,7 +279,7 @@ Theorem C16_poisson_3d : forall (sc : smooth_cfg) (sm : bool) (sh : shape3 (T:=R
   ((1 <= out_iter _ o)%Z -> (out_err _ o <= tol)%R ->
      (l2norm Rops _ (all_ix3 sh) (fun p => (D p - atimes3 Rops sh (out_x _ o) p)%R) <= tol * l2norm Rops _ (all_ix3 sh) D)%R) /\
   ((1 <= out_iter _ o)%Z -> out_err _ o = 0%R -> forall p, in_pmf3 sh p -> atimes3 Rops sh (out_x _ o) p = D p) /\
-  ((1 <= out_iter _ o < Z.of_nat itmax)%Z -> (out_err _ o <= tol)%R).
+  ((1 <= out_iter _ o < Z.of_nat itmax)%Z -> (out_err _ o <= tol)%R \/ out_err _ o = 0%R).
 Proof. exact poisson3_history. Qed.
 Print Assumptions C16_poisson_3d.
 
@@ -399,6 +400,46 @@ Print Assumptions C16_cg_error_strict_decrease_3d.
 (* a Poisson problem with a solution (premise of the two theorems above): A (-b22) = b22 on the 2x2 grid *)
 Example C16_example_solution_exists : forall q, In q (all_ix2 sh22) -> atimes2 Rops sh22 (fun p => (0 + -1 * b22 p)%R) q = b22 q.
 Proof. exact b22_solution. Qed.
+
+(* Scale covariance.  The discrete problem is linear in the gradient data and the solver's stopping criterion is relative:
+   (a) gradient sums multiplied by c give the divergence multiplied by c at every point;
+   (b) a right-hand side and initial surface multiplied by c <> 0 give the same number of iterations, the same reported error
+       and the surface multiplied by c at every grid point.  The only absolute quantity in nr_linbcg_sym is EPS = 1e-14,
+       below which |divergence| is treated as zero and nothing is done: the statement assumes |D| and |c D| above it.
+   Flat surfaces (tiny gradients) are therefore integrated exactly as well as steep ones. *)
+Theorem C16_divergence_linear_2d : forall (sc : smooth_cfg) (sm : bool) (sh : shape2 (T:=R)) (c : R) (st : state2 (T:=R)) (p : Z * Z),
+  div_value2 Rops sc sm sh (scale_st2 c st) p = (c * div_value2 Rops sc sm sh st p)%R.
+Proof. exact div_value2_scal. Qed.
+Print Assumptions C16_divergence_linear_2d.
+
+Theorem C16_divergence_linear_3d : forall (sc : smooth_cfg) (sm : bool) (sh : shape3 (T:=R)) (c : R) (st : state3 (T:=R)) (p : Z * Z * Z),
+  div_value3 Rops sc sm sh (scale_st3 c st) p = (c * div_value3 Rops sc sm sh st p)%R.
+Proof. exact div_value3_scal. Qed.
+Print Assumptions C16_divergence_linear_3d.
+
+Theorem C16_cg_scale_covariant_2d : forall (sh : shape2 (T:=R)) (c : R) (itmax : nat) (tol : R) (D x0 : Z * Z -> R) (err0 : R),
+  (0 < nxg sh)%Z -> (0 < nyg sh)%Z -> c <> 0%R ->
+  (cg_eps Rops <= l2norm Rops _ (all_ix2 sh) D)%R -> (cg_eps Rops <= Rabs c * l2norm Rops _ (all_ix2 sh) D)%R ->
+  let o := integrate2 Rops sh itmax tol D x0 err0 in
+  let o' := integrate2 Rops sh itmax tol (fun q => (c * D q)%R) (fun q => (c * x0 q)%R) err0 in
+  out_iter _ o' = out_iter _ o /\ out_err _ o' = out_err _ o /\
+  forall q, in_pmf2 sh q -> out_x _ o' q = (c * out_x _ o q)%R.
+Proof. exact integrate2_scal. Qed.
+Print Assumptions C16_cg_scale_covariant_2d.
+
+Theorem C16_cg_scale_covariant_3d : forall (sh : shape3 (T:=R)) (c : R) (itmax : nat) (tol : R) (D x0 : Z * Z * Z -> R) (err0 : R),
+  (0 < mxg sh)%Z -> (0 < myg sh)%Z -> (0 < mzg sh)%Z -> c <> 0%R ->
+  (cg_eps Rops <= l2norm Rops _ (all_ix3 sh) D)%R -> (cg_eps Rops <= Rabs c * l2norm Rops _ (all_ix3 sh) D)%R ->
+  let o := integrate3 Rops sh itmax tol D x0 err0 in
+  let o' := integrate3 Rops sh itmax tol (fun q => (c * D q)%R) (fun q => (c * x0 q)%R) err0 in
+  out_iter _ o' = out_iter _ o /\ out_err _ o' = out_err _ o /\
+  forall q, in_pmf3 sh q -> out_x _ o' q = (c * out_x _ o q)%R.
+Proof. exact integrate3_scal. Qed.
+Print Assumptions C16_cg_scale_covariant_3d.
+
+(* the premises are satisfiable: b22 has norm >= 1 >= EPS, and so has 2 * b22 *)
+Example C16_example_scale : (cg_eps Rops <= l2norm Rops _ (all_ix2 sh22) b22)%R /\ (2 <> 0)%R.
+Proof. split; [exact b22_norm | lra]. Qed.
 
 (* The grids on which integrate() refuses to work (after "fix: 2-D/3-D PMF integration on a grid with a single point
    along a periodic variable indexed outside its arrays"): exactly those with a periodic variable whose single bin
